@@ -86,7 +86,8 @@ func (plan shapePlan) userFeaturesMatch(other shapePlan) bool {
 }
 
 func (plan shapePlan) equal(other shapePlan) bool {
-	return plan.props == other.props && plan.userFeaturesMatch(other)
+	return plan.props == other.props && plan.userFeaturesMatch(other) &&
+		plan.shaper.key == other.shaper.key // the feature variations selected by the coordinates
 }
 
 // Constructs a shaping plan for a combination of @face, @userFeatures, @props,
